@@ -430,7 +430,8 @@ def probes(s, limit=40, depth=0):
     req = [k for k in (s.get("required") if isinstance(s.get("required"), list) else []) if isinstance(k, str)]
     big = []
     if any(k in s for k in arrk) or "array" in h["types"] or isinstance(s.get("enum"), list) and len(s["enum"]) > 8:
-        big += [list(range(40)), list(range(20)) + [0.0] + list(range(20, 30)), [[i] for i in range(12)] + [[3]], ["s%d" % i for i in range(33)]]
+        big += [list(range(40)), list(range(20)) + [0.0] + list(range(20, 30)), [[i] for i in range(12)] + [[3]], ["s%d" % i for i in range(33)],
+                [None] * 130, ["t%d" % i if i % 2 else i + 0.5 for i in range(130)]]       # more than a hundred errors at once
     if any(k in s for k in objk) or "object" in h["types"] or wide_keys or len(req) > 3:
         names = _uniq_strs(req + wide_keys + ["w%d" % i for i in range(24)])
         big += [dict((k, i) for i, k in enumerate(names)), dict((k, "s") for k in names[:len(names) // 2]),
